@@ -105,6 +105,9 @@ func newC19World(c *mon.Ctx, g *model.Gen, algs [2]string) (*c19World, error) {
 			var a *model.Claims
 			if valid {
 				a = g.Valid(p)
+				if a.P == 1 && a.NoMeas != nil && g.R.Intn(2) == 0 {
+					*a.NoMeas = []uint64{0, 2, 1 << 40}[g.R.Intn(3)] // any unsigned value asserts the flag
+				}
 			} else {
 				// invalid through a claim that neither the dispatcher
 				// (profile) nor the mutate op (client id) depends on
@@ -339,6 +342,12 @@ func c19Run(c *mon.Ctx, g *model.Gen, w *c19World, ops []c19Op, tag string) int 
 						return false
 					}
 					g1, g2 := obs.Observe(e.Claims), obs.Observe(ref)
+					if f1, ok1 := obs.NumField(e.Claims, "NoSwMeasurements"); true {
+						if f2, ok2 := obs.NumField(ref, "NoSwMeasurements"); ok1 != ok2 || f1 != f2 {
+							fail("verified-for-other-claims/no-sw-measurements-value/"+after, fmt.Sprintf("Verify succeeded but the no-software-measurements claim of the attached claims (%v %v) differs from the one in the covered payload (%v %v)", f1, ok1, f2, ok2), map[string]any{"payload_hex": mon.Hex(pay)})
+							return false
+						}
+					}
 					if fmt.Sprint(extOf(e.Claims)) != fmt.Sprint(extOf(ref)) {
 						fail("verified-for-other-claims/extension-member/"+after, fmt.Sprintf("Verify succeeded but the extension claim of the attached claims (%v) differs from the one in the covered payload (%v)", extOf(e.Claims), extOf(ref)), map[string]any{"payload_hex": mon.Hex(pay)})
 						return false
